@@ -304,10 +304,10 @@ func VF_C15_f_block() {
 		w.bal = append(w.bal, b)
 		w.acc = append(w.acc, state.InitAccountState(p, w.sdb, &types.State{Balance: b.Bytes()}, &types.State{Balance: b.Bytes()}))
 	}
-	// ---- committed at block start: the name is free, or owned by A
+	// ---- committed at block start: the name is free, or owned by A and resolving to B (owner and destination differ)
 	if vf.Choice("committed", 2) == 1 {
 		scs := w.open()
-		if err := registerOwner(scs, []byte(vfName), vfPartyA, vfPartyA); err != nil {
+		if err := registerOwner(scs, []byte(vfName), vfPartyA, vfPartyB); err != nil {
 			panic(err)
 		}
 		if err := statedb.VFCommitStorage(scs); err != nil {
@@ -316,7 +316,7 @@ func VF_C15_f_block() {
 		if err := statedb.StageContractState(scs, w.sdb); err != nil {
 			panic(err)
 		}
-		w.committed, w.owner, w.dest = true, vfPartyA, vfPartyA
+		w.committed, w.owner, w.dest = true, vfPartyA, vfPartyB
 		vf.Assert(bytes.Equal(GetOwner(w.open(), []byte(vfName)), vfPartyA), "C15.f.block-setup")
 	}
 	w.checkState("C15.f.block-setup")
